@@ -319,12 +319,14 @@ class ThermochemIncomplete(ThermochemBase):
             (T_data, ND_Cp_data) = list(zip(*params['ND_Cp_data']))
             Ts = np.array([T.in_units('K') for T in T_data])
             ND_Cps = np.array(ND_Cp_data)
-            ND_Cp_data = dict(list(zip(Ts, ND_Cps)))
+            ND_Cp_data = dict((float(T), float(ND_Cp))
+                              for (T, ND_Cp) in zip(Ts, ND_Cps))
         elif params.get('Cp_data'):
             (T_data, Cp_data) = list(zip(*params['Cp_data']))
             Ts = np.array([T.in_units('K') for T in T_data])
             ND_Cps = np.array([Cp/R for Cp in Cp_data])
-            ND_Cp_data = dict(list(zip(Ts, ND_Cps)))
+            ND_Cp_data = dict((float(T), float(ND_Cp))
+                              for (T, ND_Cp) in zip(Ts, ND_Cps))
         else:
             ND_Cp_data = {}
 
